@@ -115,6 +115,10 @@ class Exchange:
         if cache is None or fresh:
             cache = self.caches[market_id] = OrderBookCache(market_id, self.pt, False)
             changed = [b for b in self.bets.values() if b.market_id == market_id and (not executable_only or b.status == "E")]
+        refs = getattr(self.world, "subscribed_refs", None)
+        if refs is not None:
+            # the order stream only carries bets tagged with a subscribed customerStrategyRef
+            changed = [b for b in changed if b.sref in refs]
         orc = {}
         for b in changed:
             e = orc.setdefault((b.sel, b.hc), {"id": b.sel, "uo": []})
@@ -694,6 +698,7 @@ class LiveWorld:
             fw.add_strategy(st)
             self.strategies.append(st)
         self.order_stream_id = 999
+        self._make_order_stream()
         self.market_stream_id = self.strategies[0].streams[0].stream_id if self.strategies else 10000
         self.packages = []
         orig = fw.process_order_package
@@ -732,6 +737,83 @@ class LiveWorld:
         cache.publish_time = self.clock_ms
         mb = cache.create_resource(self.market_stream_id, snap=True)
         return events.MarketBookEvent([mb])
+
+    def _make_order_stream(self):
+        """the real OrderStream object: its run() is executed once against a recording streaming client (what
+        it subscribes to decides which bets the double streams), its output loop is executed one iteration per
+        delivered update (stream_output)"""
+        from flumine.streams.orderstream import OrderStream
+
+        world = self
+        st = OrderStream(self.framework, self.order_stream_id, streaming_timeout=0.25, conflate_ms=None, client=self.client)
+        self.order_stream = st
+
+        class _T:
+            def is_alive(s):
+                return True
+
+        st._output_thread = _T()
+        rec = {}
+
+        class _Stream:
+            def subscribe_to_orders(s, order_filter=None, conflate_ms=None, **kw):
+                rec["filter"] = order_filter
+                return world.order_stream_id
+
+            def start(s):
+                return None
+
+        class _Streaming:
+            def create_stream(s, unique_id=0, listener=None, **kw):
+                return _Stream()
+
+        saved = self.api.streaming
+        self.api.streaming = _Streaming()
+        try:
+            run = getattr(OrderStream.run, "__wrapped__", None)
+            if run is None:
+                raise core.HarnessError("OrderStream.run is not a plain wrapped function any more")
+            run(st)
+        finally:
+            self.api.streaming = saved
+        f = rec.get("filter") or {}
+        refs = f.get("customerStrategyRefs")
+        self.subscribed_refs = set(refs) if refs else None
+
+    def stream_output(self, order_books):
+        """one iteration of the real OrderStream.handle_output loop; order_books=None is the queue time-out
+        (periodic empty snap).  Returns the events the loop put on the handler queue."""
+        import queue as _q
+
+        st = self.order_stream
+        alive = iter([True, False])
+        st.is_alive = lambda: next(alive)
+
+        class _Q:
+            def get(s, block=True, timeout=None):
+                if order_books is None:
+                    raise _q.Empty
+                return order_books
+
+        st._output_queue = _Q()
+        fw = self.framework
+        before = []
+        while not fw.handler_queue.empty():
+            before.append(fw.handler_queue.get())
+        st.handle_output()
+        out = []
+        while not fw.handler_queue.empty():
+            out.append(fw.handler_queue.get())
+        for e in before:
+            fw.handler_queue.put(e)
+        return out
+
+    def deliver(self, order_books):
+        n = 0
+        for e in self.stream_output(order_books):
+            self.dispatch(e)
+            n += 1
+        return n
 
     def dispatch(self, event):
         """one event through the real Flumine.run() loop"""
@@ -846,13 +928,12 @@ class LiveWorld:
             mid, res = q.pop(0) if k == "D" else q.pop(-1)
             if k == "Dskip":
                 self.budgets["stale"] -= 1
-            res.client = self.client
             self.last_delivered = (mid, res)
-            self.dispatch(events.CurrentOrdersEvent([res]))
+            self.deliver([res])
         elif k == "Dd":
             self.budgets["dup"] -= 1
             mid, res = self.last_delivered
-            self.dispatch(events.CurrentOrdersEvent([res]))
+            self.deliver([res])
         elif k == "EX_accept":
             if len(ev) > 1:
                 self.budgets["fill"] -= 1
